@@ -85,13 +85,16 @@ func catalogue() []fault {
 type caseSpec struct {
 	id     string
 	faults []fault
+	// tie[k]: the probe after fault k announces the id that already is the maximum
+	tie []bool
 }
 
 func cases(run *ev.Run) []caseSpec {
 	cat := catalogue()
 	var out []caseSpec
 	for _, f := range cat {
-		out = append(out, caseSpec{id: "single:" + f.String(), faults: []fault{f}})
+		out = append(out, caseSpec{id: "single:" + f.String(), faults: []fault{f}, tie: []bool{false}})
+		out = append(out, caseSpec{id: "single-tie:" + f.String(), faults: []fault{f}, tie: []bool{true}})
 	}
 	nSeq := run.Pick(200, 10000)
 	for i := 0; i < nSeq; i++ {
@@ -99,10 +102,12 @@ func cases(run *ev.Run) []caseSpec {
 		r := run.Rand(id)
 		n := 2 + r.Intn(3)
 		var fs []fault
+		var ties []bool
 		for k := 0; k < n; k++ {
 			fs = append(fs, cat[r.Intn(len(cat))])
+			ties = append(ties, r.Intn(2) == 0)
 		}
-		out = append(out, caseSpec{id: id, faults: fs})
+		out = append(out, caseSpec{id: id, faults: fs, tie: ties})
 	}
 	return out
 }
@@ -167,7 +172,7 @@ func TestCheck(t *testing.T) {
 		}
 	})
 	run.Assume("a message the client sent but whose answer it did not read may or may not have been processed when the client is cancelled or its transport killed over gRPC (any prefix of the unacknowledged messages is accepted); after a half-close, and on direct streams, everything sent was received and must have been processed")
-	run.Finish("fault enumeration: a 5-message Modify script (params, election, three batches incl. a held operation that resolves) cut after each of its 14 send/read steps x {direct: half-close, cancel; gRPC: half-close, cancel, transport kill}; a Get(ALL) over an instance holding 2/5/40/200 entries spread over all five tables, cut after 1..6, n-1, n and inside every table's section x {direct: Send fails; gRPC: cancel, transport kill}; plus seeded sequences of 2-4 such faults on one server. After every fault: contents and highest id/primary vs the model (hooks), then a bounded-progress probe - a new session negotiates, announces max+1, adds a next-hop, reads it back with Get, flushes - each step under a watchdog; a watchdog firing is a violation only if two goroutine dumps prove the server permanently blocked. Distinct = by fault case", 50, false)
+	run.Finish("fault enumeration: a 5-message Modify script (params, election, three batches incl. a held operation that resolves) cut after each of its 14 send/read steps x {direct: half-close, cancel; gRPC: half-close, cancel, transport kill}; a Get(ALL) over an instance holding 2/5/40/200 entries spread over all five tables, cut after 1..6, n-1, n and inside every table's section x {direct: Send fails; gRPC: cancel, transport kill}; plus seeded sequences of 2-4 such faults on one server. After every fault: contents and highest id/primary vs the model (hooks), then a bounded-progress probe - a new session negotiates, announces max+1 or (every other probe) the very id that is the maximum, adds a next-hop plus the next-hop the cut-off session's held operations were waiting for, reads back with Get exactly what the model predicts (nothing of the departed session may surface, no foreign result on the probe's stream), flushes - each step under a watchdog; a watchdog firing is a violation only if two goroutine dumps prove the server permanently blocked. Distinct = by fault case", 50, false)
 }
 
 // ---------------------------------------------------------------- child side
@@ -180,6 +185,7 @@ type world struct {
 	nextOp       uint64
 	trace        []string
 	probeRetries int
+	probeN       int
 	g            *gen.Gen
 }
 
@@ -437,7 +443,7 @@ func (w *world) getFault(f fault) string {
 }
 
 // probe: a new session must be served promptly. Returns problem strings.
-func (w *world) probe(label string) (probs []string, inconclusive string) {
+func (w *world) probe(label string, tie bool) (probs []string, inconclusive string) {
 	st := drv.OpenModify(w.srv)
 	s := &drv.Session{Stream: st, Name: "probe", DefaultNI: "DEFAULT"}
 	block := func(step, needle string) {
@@ -470,7 +476,15 @@ func (w *world) probe(label string) (probs []string, inconclusive string) {
 		s = &drv.Session{Stream: st, Name: "probe", DefaultNI: "DEFAULT"}
 	}
 	w.probeRetries += attempts - 1
+	// Every other probe announces the SAME id as the highest one learnt (a controller
+	// replica taking over after the session that held the role went away announces what
+	// the election system gave it, which may be that very id): it becomes the primary all
+	// the same, and whatever the departed session left unanswered is not its business.
+	w.probeN++
 	id := inc(w.max)
+	if tie && w.max != nil {
+		id = &spb.Uint128{High: w.max.High, Low: w.max.Low}
+	}
 	rep, err := s.Elect(id)
 	if err != nil {
 		if err == drv.ErrWatchdog {
@@ -480,27 +494,42 @@ func (w *world) probe(label string) (probs []string, inconclusive string) {
 		return []string{fmt.Sprintf("probe-election-rejected|after %s: %v", label, err)}, ""
 	}
 	if rep.GetHigh() != id.High || rep.GetLow() != id.Low {
-		return []string{fmt.Sprintf("probe-election-not-won|after %s the probe announced %s (model maximum %s +1) and was told %s", label, mon.IDStr(id), mon.IDStr(w.max), mon.IDStr(rep))}, ""
+		return []string{fmt.Sprintf("probe-election-not-won|after %s the probe announced %s (model maximum %s) and was told %s", label, mon.IDStr(id), mon.IDStr(w.max), mon.IDStr(rep))}, ""
 	}
 	w.max = id
 	w.m.DropHeld()
-	op := mkNH(w.nextOp, "VRF2", 77)
-	w.nextOp++
-	op.Op.ElectionId = id
-	res := s.Ops([]*spb.AFTOperation{op.Op}, id)
+	// one unrelated next-hop, and the next-hop and the group the scripted session's held
+	// operations were waiting for: only these may appear
+	ops := []gen.OpSpec{mkNH(w.nextOp, "VRF2", 77), mkNH(w.nextOp+1, "VRF1", 1), mkNHG(w.nextOp+2, "VRF1", 2, 1), mkNH(w.nextOp+3, "DEFAULT", 1)}
+	w.nextOp += 4
+	sentIDs := map[uint64]bool{}
+	var pbs []*spb.AFTOperation
+	for _, o := range ops {
+		o.Op.ElectionId = id
+		pbs = append(pbs, o.Op)
+		sentIDs[o.Op.GetId()] = true
+	}
+	res := s.Ops(pbs, id)
 	if res.RPCErr == drv.ErrWatchdog {
 		block("operation", "gribigo/")
 		return
 	}
-	ok := false
+	okN := 0
 	for _, r := range res.Results {
-		if r.GetId() == op.Op.GetId() && r.GetStatus() == spb.AFTResult_RIB_PROGRAMMED {
-			ok = true
+		if !sentIDs[r.GetId()] {
+			return []string{fmt.Sprintf("probe-received-foreign-result|after %s the probe session received %v for operation %d, which it never sent", label, r.GetStatus(), r.GetId())}, ""
+		}
+		if r.GetStatus() == spb.AFTResult_RIB_PROGRAMMED {
+			okN++
 		}
 	}
-	if !ok {
+	if okN != len(ops) {
 		return []string{fmt.Sprintf("probe-operation-not-programmed|after %s: results %v err %v", label, res.Results, res.RPCErr)}, ""
 	}
+	for _, o := range ops[:len(ops)-1] {
+		w.m.Predict(o)
+	}
+	op := ops[len(ops)-1]
 	w.m.Predict(op)
 	got, e := w.implContents()
 	if e == "WATCHDOG" {
@@ -662,7 +691,7 @@ func TestChild(t *testing.T) {
 				nCompares++
 			}
 			if len(probs) == 0 && inconcl == "" {
-				p, inc := w.probe(label)
+				p, inc := w.probe(label, c.tie[fi])
 				probs = append(probs, p...)
 				inconcl = inc
 				if len(p) == 0 && inc == "" {
